@@ -17,11 +17,13 @@ VARIABLES l,       \* next line
           rew0,    \*      ... before the event just consumed
           sprew, sprew0,  \* C10: tracked provider reward, after / before
           tb, tr, tsp,    \* C11: tracked delegate balances / rewards ("prov/delegate" -> n), provider rewards
-          tb0, tr0, tsp0  \*      ... before the event just consumed
+          tb0, tr0, tsp0, \*      ... before the event just consumed
+          kk, kb, kk0, kb0  \* C23: tracked stake-pool key set and delegate balances, after / before
 
 c10vars == <<rew, rew0, sprew, sprew0>>
 c11vars == <<tb, tr, tsp, tb0, tr0, tsp0>>
-vars == <<l, ev, c10vars, c11vars>>
+c23vars == <<kk, kb, kk0, kb0>>
+vars == <<l, ev, c10vars, c11vars, c23vars>>
 Null == [ev |-> "none"]
 
 M(ps) == PutPairs(<<>>, ps, 1)
@@ -29,6 +31,7 @@ Field(e, f, def) == IF f \in DOMAIN e THEN e[f] ELSE def
 
 TraceInit == /\ l = 1 /\ ev = Null /\ rew = <<>> /\ rew0 = <<>> /\ sprew = 0 /\ sprew0 = 0
              /\ tb = <<>> /\ tr = <<>> /\ tsp = <<>> /\ tb0 = <<>> /\ tr0 = <<>> /\ tsp0 = <<>>
+             /\ kk = {} /\ kb = <<>> /\ kk0 = {} /\ kb0 = <<>>
 
 IsEvent(e) == l <= Len(Trace) /\ Trace[l].ev = e /\ l' = l + 1
 
@@ -40,6 +43,7 @@ TraceReset ==
   /\ rew0' = <<>> /\ sprew0' = 0
   /\ tb' = M(Field(Trace[l], "bal", <<>>)) /\ tr' = M(Field(Trace[l], "rew", <<>>)) /\ tsp' = M(Field(Trace[l], "sp", <<>>))
   /\ tb0' = <<>> /\ tr0' = <<>> /\ tsp0' = <<>>
+  /\ kk' = {} /\ kb' = <<>> /\ kk0' = {} /\ kb0' = <<>>
 
 (* C10: one call of DistributeRewards / DistributeRewardsRandN            *)
 TraceDist ==
@@ -49,7 +53,7 @@ TraceDist ==
        /\ rew0' = rew /\ sprew0' = sprew
        /\ rew' = PutPairs(rew, e.post, 1)            \* (values are capped at 2^29 by the recorder)
        /\ sprew' = e.sp_post
-  /\ UNCHANGED c11vars
+  /\ UNCHANGED <<c11vars, c23vars>>
 
 (* C11: one lock / unlock / collect transaction, reward payment or kill; the tracked pools become what  *)
 (* was read back from the MPT after the step                                                            *)
@@ -59,14 +63,25 @@ TraceStake ==
        /\ ev' = e
        /\ tb0' = tb /\ tr0' = tr /\ tsp0' = tsp
        /\ tb' = M(e.post_bal) /\ tr' = M(e.post_rew) /\ tsp' = M(e.sp_post)
-  /\ UNCHANGED c10vars
+  /\ UNCHANGED <<c10vars, c23vars>>
 
-TraceSkip ==
-  /\ l <= Len(Trace) /\ Trace[l].ev \notin {"Reset", "Dist", "Stake"}
-  /\ l' = l + 1 /\ ev' = Null
+(* C23: one kill / shutdown transaction or reward payment (or the staking that sets a trace up)        *)
+SetOf(q) == {q[i] : i \in 1..Len(q)}
+TraceKill ==
+  /\ IsEvent("Kill")
+  /\ LET e == Trace[l] IN
+       /\ ev' = e
+       /\ kk0' = (IF e.op = "setup" THEN SetOf(e.keys_pre) ELSE kk)
+       /\ kb0' = (IF e.op = "setup" THEN M(e.bal_pre) ELSE kb)
+       /\ kk' = SetOf(e.keys_post) /\ kb' = M(e.bal_post)
   /\ UNCHANGED <<c10vars, c11vars>>
 
-TraceNext == TraceReset \/ TraceDist \/ TraceStake \/ TraceSkip
+TraceSkip ==
+  /\ l <= Len(Trace) /\ Trace[l].ev \notin {"Reset", "Dist", "Stake", "Kill"}
+  /\ l' = l + 1 /\ ev' = Null
+  /\ UNCHANGED <<c10vars, c11vars, c23vars>>
+
+TraceNext == TraceReset \/ TraceDist \/ TraceStake \/ TraceKill \/ TraceSkip
 TraceSpec == TraceInit /\ [][TraceNext]_vars
 
 -----------------------------------------------------------------------------
@@ -184,4 +199,62 @@ C11_Collect ==
             /\ Val(PostS, ev.prov) = (IF ev.is_wallet THEN 0 ELSE Val(PreS, ev.prov))
        ELSE Unch
 C11_NoPanic == StakeJudged => ~ev.panic
+
+-----------------------------------------------------------------------------
+(* C23: ALL stake-pool nodes of the state are projected before and after each step: the key set, and    *)
+(* per node the delegate balances / rewards ("key/delegate" -> n), its own reward and its dead flag;    *)
+(* rec = provider -> 0 absent, 1 alive, 2 killed, 3 shut down, 4 both.                                   *)
+IsKill == ev.ev = "Kill"
+KillJudged == IsKill /\ ~Known /\ ev.op # "setup"
+IsKS == ev.op \in {"kill", "shutdown"}
+KeysPre == SetOf(ev.keys_pre)   KeysPost == SetOf(ev.keys_post)
+BalPre == M(ev.bal_pre)    BalPost == M(ev.bal_post)
+RewPre == M(ev.rew_pre)    RewPost == M(ev.rew_post)
+SprPre == M(ev.spr_pre)    SprPost == M(ev.spr_post)
+DeadPre == M(ev.dead_pre)  DeadPost == M(ev.dead_post)
+RecPre == M(ev.rec_pre)    RecPost == M(ev.rec_post)
+NK == ev.node_key                      \* the key of the addressed provider's own stake pool
+OwnKeys == SetOf(ev.own_keys)          \* its delegate entries
+DeadBefore == Val(RecPre, ev.prov) # 1 \* killed, shut down or absent
+AllSame == /\ KeysPost = KeysPre /\ BalPost = BalPre /\ RewPost = RewPre /\ SprPost = SprPre
+           /\ DeadPost = DeadPre /\ RecPost = RecPre
+\* MultFloat64(balance, 1 - slash): the floor of the exact product
+FloorSlash(b, b2) == b2 * ev.slash_den <= b * (ev.slash_den - ev.slash_num) /\ b * (ev.slash_den - ev.slash_num) < (b2 + 1) * ev.slash_den
+
+\* nothing moves the stake pools between two recorded steps (harness sanity, exit 2)
+HarnessKillContinuity == (IsKill /\ ev.op # "setup") => (KeysPre = kk0 /\ BalPre = kb0)
+
+\* no stake-pool node is created; none but the addressed provider's own (and only when it has no delegate
+\* left: the contracts then delete provider and pool) disappears; nobody else's pool or record changes
+C23_Frame ==
+  (KillJudged /\ IsKS) =>
+     /\ KeysPost \subseteq KeysPre
+     /\ KeysPre \ KeysPost \subseteq {NK}
+     /\ (NK \in KeysPre \ KeysPost) => (ev.ok /\ OwnKeys = {})
+     /\ SameOutside(BalPre, BalPost, OwnKeys) /\ SameOutside(RewPre, RewPost, OwnKeys)
+     /\ SameOutside(SprPre, SprPost, {NK}) /\ SameOutside(DeadPre, DeadPost, {NK})
+     /\ SameOutside(RecPre, RecPost, {ev.prov})
+\* unauthorised callers, attempts on a dead provider, and failed transactions change nothing
+C23_Unauthorised ==
+  (KillJudged /\ IsKS /\ (~ev.auth \/ DeadBefore \/ ~ev.ok)) => AllSame
+\* an authorised first kill / shutdown: record dead, own pool dead, every delegate slashed by the
+\* configured fraction (once), rewards untouched -- or provider and (empty) pool removed altogether
+C23_DeadSlashedOnce ==
+  (KillJudged /\ IsKS /\ ev.auth /\ ~DeadBefore /\ ev.ok) =>
+     IF NK \notin KeysPost
+       THEN Val(RecPost, ev.prov) = 0 /\ OwnKeys = {}
+       ELSE /\ Val(RecPost, ev.prov) \in (IF ev.op = "kill" THEN {2, 4} ELSE {3, 4})
+            /\ Val(DeadPost, NK) = 1
+            /\ \A k \in OwnKeys : /\ k \in DOMAIN BalPre /\ k \in DOMAIN BalPost
+                                   /\ FloorSlash(BalPre[k], BalPost[k])
+                                   /\ Val(RewPost, k) = Val(RewPre, k)
+            /\ Val(SprPost, NK) = Val(SprPre, NK)
+\* a reward payment touches only the rewards of the addressed provider's own pool, and nothing at all
+\* once the provider is dead
+C23_NoRewardAfterDeath ==
+  (KillJudged /\ ev.op = "reward") =>
+     /\ KeysPost = KeysPre /\ BalPost = BalPre /\ DeadPost = DeadPre /\ RecPost = RecPre
+     /\ SameOutside(RewPre, RewPost, OwnKeys) /\ SameOutside(SprPre, SprPost, {NK})
+     /\ DeadBefore => (RewPost = RewPre /\ SprPost = SprPre)
+C23_NoPanic == KillJudged => ~ev.panic
 =============================================================================
